@@ -23,6 +23,9 @@ CHECKS = {
  "C06": ("fault_enumeration", "fault enumeration: every fault kind at every position behind every valid script prefix (bounded-exhaustive) + proptest prefixes; oracle over the peer's event log",
          "For all 17 sequences, every valid reply prefix up to depth 4 (thorough 5) is followed by each fault (4 NACK codes, packets outside the reply set, undecodable bodies inside it, truncated packets followed by end of stream, end of stream) at the acknowledgement position or instead of the next reply: exactly one Err after the Ok items, then None twice without I/O, and no byte written after the faulty bytes were released.",
          "Trusted: the fault model of Appendix C; malformed bodies are those both the reference decoder and the packet's own decoder reject.", "7/C06"),
+ "C09": ("fault_enumeration", "fault enumeration (every position x {close, garbage, NACK, silence, wrong serial}) + proptest multi-fault plans; invariants over the client-side per-connection log on virtual time",
+         "Single faults are injected at every packet position of every exchange of each public operation (handshake and reconnect handshake included), multi-fault plans are sampled, and every run ends with one more fault-free call. Invariants I1-I4 over the client-side connection log (open / bytes / close with virtual time) decide the property: registration and identity check first on every connection, no use of a wrong-serial connection, nothing written after a delivered fault and the connection dropped before the next opens, healthy connections kept and reused without re-registration.",
+         "Trusted: simulated terminal and the logging stream wrapper (harness/src/sim.rs); fault model of DESIGN.md Appendix C. Only modelled fault kinds are explored.", "7/C09"),
  "C10": ("fault_enumeration", "fault enumeration on virtual time: a stall at every packet position of every exchange (from a dry-run transcript), exhaustive read_card_timeout 0..255, proptest-sampled configurations; watchdog oracle in tokio paused time",
          "The real Feig client runs against an in-process simulated terminal on tokio's paused clock (hook zvt_verif). For each of the six public operations a fault-free dry run yields the packet positions of all its exchanges, handshake included; a stall (silence / header then silence, once / on every attempt) is injected at each, plus stalls in the handshake of a forced reconnect and in connect(). The call must return without panicking within S(op)*20*(T+2) virtual seconds under a one-virtual-day watchdog; read_card_timeout is enumerated 0..255 including a terminal that answers t+1 s after its ack (no collapse).",
          "Trusted: tokio's paused clock and in-memory duplex streams stand in for the network; the simulated terminal (harness/src/sim.rs). A terminal trickling packets below the per-packet time-out is outside the property.", "7/C10"),
